@@ -285,7 +285,7 @@ PROPS = {
         coq_files=["Tree/KeyCodec", "Tree/Leaves", "Tree/Notif", "Tree/Node", "Tree/SetReq", "Tree/KeyCodecProofs", "Tree/NodeStepProofs", "Tree/GnmiRt", "Tree/GnmiRtProofs", "Tree/GnmiRtOrd",
                    "Tree/GnmiRtOrdProofs", "Tree/GnmiExample", "Corr/GnmiCorr", "Corr/GnmiOrdCorr"],
         streams=[dict(name="gnmirt", n=N(700, 6000))],
-        signatures=["gnmi/"],
+        signatures=["gnmi/", "key/float-text"],
         trusted=["schema translator and tree printer (tree.go)", "float and key oracle tables produced by the harness"],
         partial="Ordered lists are covered only in the OpenConfig shape (gn_treeb_ord / ord_field_okb); an ordered list with a sibling in its container is wiped by the atomic delete "
                 "(c02_refuted_atomic_wipes, known finding); an ordered list directly in a list entry or the root (uncompressed), and decimal64/binary/multi-type-union ordered keys, are outside the "
